@@ -457,4 +457,119 @@ theorem stingy_truth (σ : String → Int) (as : List Ast) (oid) (h : C04.OkL σ
 
 end ccsemantics
 
+
+/-! ## … and how the defaults reach the objective
+
+`default_prios` reads the `prio` tag of every flattened sub-proposition (−1 where there is none).  The only tag the
+constructors set is the −2 on the helper that `cc.Any(…, default=d)` puts around the NON-default alternatives; the helper
+holds exactly when some non-default alternative is selected.  So its column — at level "default magnitude 2", above every
+plain column and below every user priority (`level_order`) — is what makes a configuration that stays with the default
+beat one that leaves it, all user priorities being equal (`configurator_objective_lex`). -/
+
+section defaults
+open P
+
+theorem dedup_nodup : ∀ l : List (String × Int), (l.map (·.1)).Nodup → Lex.defaultPrios.dedup l = l
+  | [], _ => rfl
+  | [x], _ => rfl
+  | x :: y :: r, h => by
+      have hne : x.1 ≠ y.1 := by
+        intro he
+        have := (List.nodup_cons.1 h).1
+        simp [he] at this
+      have ih := dedup_nodup (y :: r) (List.nodup_cons.1 h).2
+      unfold Lex.defaultPrios.dedup
+      rw [if_neg hne, ih]
+
+/-- **what `default_prios` is**, for a configurator whose flattened ids are pairwise distinct: one entry per
+    sub-proposition — its `prio` tag, −1 where it has none -/
+theorem defaultPrios_spec (t : P) (hnd : ((sortById (subs t)).map (·.id)).Nodup) (x : String × Int) :
+    x ∈ Lex.defaultPrios t ↔ ∃ p ∈ subs t, x = (p.id, p.mt.prio.getD (-1)) := by
+  unfold Lex.defaultPrios
+  simp only
+  rw [dedup_nodup _ (by simpa [List.map_map, Function.comp_def] using hnd)]
+  constructor
+  · intro h
+    obtain ⟨p, hp, rfl⟩ := List.mem_map.1 h
+    exact ⟨p, (sortById_perm _).mem_iff.1 hp, rfl⟩
+  · rintro ⟨p, hp, rfl⟩
+    exact List.mem_map.2 ⟨p, (sortById_perm _).mem_iff.2 hp, rfl⟩
+
+/-- **the helper of a defaulted `cc.Any`**: when the default names one of several alternatives, the node holds the default
+    alternative(s) and ONE further child `H`, tagged −2, which is true exactly when some non-default alternative is -/
+theorem ccAny_default_helper (args : List (Bool × P)) (d1 : String) (d2 : Bnd) (ds) (oid)
+    (h1 : ¬ args.length ≤ 1)
+    (h2 : ¬ (((args.filter (fun x => !(x.2.isLeaf && x.2.id == d1))).length == args.length ||
+        (args.filter (fun x => !(x.2.isLeaf && x.2.id == d1))).length == 0) = true)) :
+    ∃ H, H ∈ (mkCcAny args ((d1, d2) :: ds) oid).kids ∧ H.mt.prio = some (-2) ∧ H.isLeaf = false ∧
+      (∀ σ, evalPt σ H =
+        if sumPt σ ((args.filter (fun x => !(x.2.isLeaf && x.2.id == d1))).map (·.2)) ≥ 1 then 1 else 0) ∧
+      ∀ k ∈ (mkCcAny args ((d1, d2) :: ds) oid).kids, k = H ∨
+        k ∈ (args.filter (fun x => x.2.isLeaf && x.2.id == d1)).map (·.2) := by
+  have hform : mkCcAny args ((d1, d2) :: ds) oid =
+      setDflt (mkAny (args.filter (fun x => x.2.isLeaf && x.2.id == d1) ++
+        [(false, setPrio (mkAny (args.filter (fun x => !(x.2.isLeaf && x.2.id == d1))) none) (-2))]) oid .ccAny)
+        ((d1, d2) :: ds) := by
+    simp only [mkCcAny, h1, if_false]
+    rw [if_neg h2]
+  have hkids : (mkCcAny args ((d1, d2) :: ds) oid).kids =
+      sortById (orderArgs (args.filter (fun x => x.2.isLeaf && x.2.id == d1) ++
+        [(false, setPrio (mkAny (args.filter (fun x => !(x.2.isLeaf && x.2.id == d1))) none) (-2))])) := by
+    rw [hform]
+    unfold mkAny mkAtLeast
+    cases varOf oid <;> simp [setDflt, P.kids]
+  refine ⟨setPrio (mkAny (args.filter (fun x => !(x.2.isLeaf && x.2.id == d1))) none) (-2), ?_, ?_, ?_, ?_, ?_⟩
+  · rw [hkids]
+    exact (sortById_perm _).mem_iff.2 ((C04.orderArgs_perm _).mem_iff.2 (by simp))
+  · simp [mkAny, mkAtLeast, varOf, setPrio, P.mt]
+  · simp [mkAny, mkAtLeast, varOf, setPrio, isLeaf]
+  · intro σ
+    rw [evalPt_setPrio, C04.evalPt_mkAny]
+  · intro k hk
+    rw [hkids] at hk
+    have := (C04.orderArgs_perm _).mem_iff.1 ((sortById_perm _).mem_iff.1 hk)
+    rw [List.map_append] at this
+    rcases List.mem_append.1 this with h | h
+    · exact Or.inr h
+    · left; simpa using h
+
+theorem self_mem_subs (p : P) : p ∈ subs p := by cases p <;> simp [subs]
+
+theorem kid_mem_subsL : ∀ (ks : List P) (k : P), k ∈ ks → k ∈ subsL ks
+  | [], _, h => by simp at h
+  | x :: r, k, h => by
+      simp only [subsL, List.mem_append]
+      rcases List.mem_cons.1 h with rfl | h
+      · exact Or.inl (self_mem_subs _)
+      · exact Or.inr (kid_mem_subsL r k h)
+
+theorem kid_mem_subs (t k : P) (h : k ∈ t.kids) : k ∈ subs t := by
+  cases t with
+  | leaf => simp [P.kids] at h
+  | node i b s v ks m => simp only [subs, List.mem_cons]; exact Or.inr (kid_mem_subsL ks k (by simpa [P.kids] using h))
+
+/-- **the default reaches the objective through one column**: in `default_prios` of a defaulted `cc.Any` (flattened ids
+    pairwise distinct) the helper — true exactly when a non-default alternative is selected — carries −2 -/
+theorem ccAny_default_prio (args : List (Bool × P)) (d1 : String) (d2 : Bnd) (ds) (oid)
+    (h1 : ¬ args.length ≤ 1)
+    (h2 : ¬ (((args.filter (fun x => !(x.2.isLeaf && x.2.id == d1))).length == args.length ||
+        (args.filter (fun x => !(x.2.isLeaf && x.2.id == d1))).length == 0) = true))
+    (hnd : ((sortById (subs (mkCcAny args ((d1, d2) :: ds) oid))).map (·.id)).Nodup) :
+    ∃ H, (H.id, -2) ∈ Lex.defaultPrios (mkCcAny args ((d1, d2) :: ds) oid) ∧
+      ∀ σ, evalPt σ H =
+        if sumPt σ ((args.filter (fun x => !(x.2.isLeaf && x.2.id == d1))).map (·.2)) ≥ 1 then 1 else 0 := by
+  obtain ⟨H, hk, hp, _, hev, _⟩ := ccAny_default_helper args d1 d2 ds oid h1 h2
+  refine ⟨H, (defaultPrios_spec _ hnd _).2 ⟨H, kid_mem_subs _ _ hk, ?_⟩, hev⟩
+  rw [hp]; rfl
+
+/-- non-vacuity: `cc.Any(a, b, c, default=a)` meets the hypotheses of `ccAny_default_helper` -/
+example :
+    let args : List (Bool × P) := [(true, .leaf "a" ⟨0, 1⟩), (true, .leaf "b" ⟨0, 1⟩), (true, .leaf "c" ⟨0, 1⟩)]
+    (¬ args.length ≤ 1) ∧
+    ¬ (((args.filter (fun x => !(x.2.isLeaf && x.2.id == "a"))).length == args.length ||
+        (args.filter (fun x => !(x.2.isLeaf && x.2.id == "a"))).length == 0) = true) := by
+  decide
+
+end defaults
+
 end Puan.C14
